@@ -358,7 +358,8 @@ func (b *Built) naturalValue(t TypeRef, tag, fn string, oc Outcome) interface{} 
 	return &Src{Tag: tag, Rt: rt}
 }
 
-type wrongKind struct{ X int }
+// wrongKind is unhashable on purpose (a map look-up keyed by it panics)
+type wrongKind struct{ X []int }
 
 func isTypeOfFor(name string, enabled bool) graphql.IsTypeOfFn {
 	if !enabled {
@@ -366,7 +367,7 @@ func isTypeOfFor(name string, enabled bool) graphql.IsTypeOfFn {
 	}
 	return func(p graphql.IsTypeOfParams) bool {
 		s, ok := p.Value.(*Src)
-		return ok && s != nil && s.Rt == name
+		return ok && s != nil && (s.Rt == name || s.Rt == "*")
 	}
 }
 
@@ -460,11 +461,17 @@ func (b *Built) resolver(tn string, fd FieldDef) graphql.FieldResolveFn {
 		case "badthunk":
 			return func() int { return 1 }, nil
 		case "wrong":
-			return wrongKind{X: 1}, nil
+			return wrongKind{X: []int{1}}, nil
 		case "big":
 			return 3000000000, nil
 		case "badenum":
 			return EInt("nope"), nil
+		case "wrongitem":
+			v := nat()
+			if l, ok := v.([]interface{}); ok && len(l) >= 2 {
+				l[1] = wrongKind{X: []int{1}}
+			}
+			return v, nil
 		case "nilitem":
 			v := nat()
 			if l, ok := v.([]interface{}); ok && len(l) >= 2 {
@@ -636,7 +643,11 @@ func Build(s *Schema) (*Built, error) {
 		for _, m := range tr.Members {
 			members = append(members, b.Objects[m])
 		}
-		b.Types[name] = graphql.NewUnion(graphql.UnionConfig{Name: name, Types: members, ResolveType: resolveType})
+		urt := resolveType
+		if tr.NoRT {
+			urt = nil
+		}
+		b.Types[name] = graphql.NewUnion(graphql.UnionConfig{Name: name, Types: members, ResolveType: urt})
 	}
 	cfg := graphql.SchemaConfig{Query: b.Objects[s.Query]}
 	if s.Mutation != "" {
